@@ -18,7 +18,9 @@ P = {
         "Durations n*100 ms: PROVED exact below 3277 days, either sign, all n (c19_duration_exact, c19_duration_exact_signed, omega); "
         "REFUTED from 3277 days on (library switches to approximate years/months; known finding). "
         "Relative end time of a time period: PROVED to the second for all instants and durations, incl. the JSON round trip "
-        "(c19_period_le_second, c19_period_at_once, c19_period_json). "
+        "(c19_period_le_second, c19_period_at_once, c19_period_json); decoding a period document is a function of the document and the clock only, never of "
+        "what the Go value held before (c19_period_decode_history_independent, c19_period_decode_relative - trivial in the model, tied to UnmarshalJSON by "
+        "sequences of decodes into ONE value, directly and through a surrounding struct, with a fresh-value reference and an alias check on copies of the earlier value). "
         "Instants: only the glue is modelled, over the layout strings regenerated from the source on every run: some layout tried accepts the formatted text and "
         "the first that does reads every element back the way it was written, the instant is rounded to the second and converted to UTC first "
         "(c19_datetime_first_match, c19_datetime_whole_second_utc, c19_plain_and_z_forms); calendar arithmetic and time.Format/Parse are assumed (A-time), "
